@@ -4,8 +4,10 @@ import (
 	"encoding/json"
 	"flag"
 	"fmt"
+	"io"
 	"os"
 	"runtime"
+	"runtime/trace"
 	"strconv"
 	"sync"
 	"sync/atomic"
@@ -29,8 +31,17 @@ func TestMain(m *testing.M) {
 	}
 	flag.Set("rapid.seed", strconv.FormatUint(seed, 10))
 	flag.Set("rapid.nofailfile", "true")
+	if os.Getenv("VERIF_TRACE") == "1" {
+		// the execution tracer is on for the whole run of this (side) process: code that behaves
+		// differently while a trace is being taken (trace.IsEnabled, regions, logging) is exercised
+		if err := trace.Start(io.Discard); err == nil {
+			defer trace.Stop()
+		}
+	}
 	os.RemoveAll("testdata/rapid")
-	os.Exit(m.Run())
+	code := m.Run()
+	trace.Stop()
+	os.Exit(code)
 }
 
 // H is the per-property harness: recorder + replay dispatch.
@@ -63,9 +74,9 @@ func start(t *testing.T, prop, rule string) *H {
 		return h
 	}
 	if env.Phase == "g126" {
-		h.R.Assume("a further process runs this check built by " + runtime.Version() + " (the newer Go release installed beside the default one) on the lighter workload: another compiler and runtime; its cases count as evaluations, not as additional distinct cases")
+		h.R.Assume("a further process runs this check built by " + runtime.Version() + " (the newer Go release installed beside the default one, GOAMD64=v3 where the CPU allows: fused multiply-add as on arm64; confined to 3 CPUs) on the lighter workload: another compiler and runtime; its cases count as evaluations, not as additional distinct cases")
 	} else if env.Light {
-		h.R.Assume("a second process runs this check built for GOARCH=386 (int and uint are 32 bits wide) on a lighter workload: large enumerations sampled at a prime stride, rapid counts divided by 4, another seed; its cases count as evaluations, not as additional distinct cases")
+		h.R.Assume("a second process runs this check built for GOARCH=386 (int and uint are 32 bits wide), the library compiled with -N -l and -tags purego, the execution tracer on, confined to 5 CPUs, on a lighter workload: large enumerations sampled at a prime stride, rapid counts divided by 4, another seed; its cases count as evaluations, not as additional distinct cases")
 	}
 	if env.Phase == "plain" {
 		h.R.Assume("a second process runs the sequential families and the retention runs of this check in a build without the race detector (under -race sync.Pool drops a quarter of its entries at random, so pooled state never grows old there)")
